@@ -87,4 +87,139 @@ theorem inv_setValue (r : Rng α) (row col : Nat) (v : α) (hi : Inv r) (r2 : Rn
     exact inv_set _ _ _ (inv_grow r row col hi hne hpre').1
   · cases h
 
+/-- `range(s, e)` yields a consistent rectangle whose bounds are exactly `(s, e)` (and is never empty) -/
+theorem inv_range (r : Rng α) (hi : Inv r) (sr sc er ec : Nat) (r' : Rng α)
+    (h : range r sr sc er ec = .ok r') :
+    Inv r' ∧ r'.inner.length ≠ 0 ∧ r'.start = some (sr, sc) ∧ r'.end_ = some (er, ec) := by
+  obtain ⟨e1, e2, e3, e4, h1, h2, hl, _⟩ := range_core r hi sr sc er ec r' h
+  obtain ⟨a, b, c, d, inner⟩ := r'
+  simp only at e1 e2 e3 e4 hl; subst e1 e2 e3 e4
+  have hpos : inner.length ≠ 0 := by
+    rw [hl]; exact Nat.ne_of_gt (Nat.mul_pos (by omega) (by omega))
+  exact ⟨mkInv _ _ _ _ _ h1 h2 hl, hpos, by simp [Rng.start, hpos], by simp [Rng.end_, hpos]⟩
+
+/-- `range(s, e)` equals the source wherever they overlap and the default value elsewhere
+    (for empty and non-empty sources alike) -/
+theorem range_spec (r : Rng α) (hi : Inv r) (sr sc er ec : Nat) (r' : Rng α)
+    (h : range r sr sc er ec = .ok r') (p q : Nat) :
+    r'.valAt p q = if sr ≤ p ∧ p ≤ er ∧ sc ≤ q ∧ q ≤ ec then r.valAt p q else default := by
+  obtain ⟨hinv, hne, _, _⟩ := inv_range r hi sr sc er ec r' h
+  obtain ⟨e1, e2, e3, e4, h1, h2, hl, hv⟩ := range_core r hi sr sc er ec r' h
+  by_cases hin : sr ≤ p ∧ p ≤ er ∧ sc ≤ q ∧ q ≤ ec
+  · rw [if_pos hin, valAt_of_in r' p q hne (by omega), hinv.width_eq hne, e1, e2, e4]
+    exact hv p q hin.1 hin.2.1 hin.2.2.1 hin.2.2.2
+  · rw [if_neg hin, valAt_of_out r' p q (by omega)]
+
+/-! ## `from_sparse` -/
+
+/-- `from_sparse` yields a consistent rectangle (empty iff there are no cells) -/
+theorem inv_fromSparse (cells : List (Nat × Nat × α)) (r : Rng α) (h : fromSparse cells = .ok r) :
+    Inv r ∧ (r.inner.length = 0 ↔ cells = []) := by
+  cases cells with
+  | nil =>
+    simp only [fromSparse] at h; injection h with h; subst h
+    exact ⟨⟨by simp [empty, Rng.height, Rng.width], by simp [empty]⟩, by simp [empty]⟩
+  | cons c0 rest =>
+    obtain ⟨_, _, _, _, h1, h2, hl, _, _⟩ := fromSparse_core c0 rest r h
+    obtain ⟨a, b, c, d, inner⟩ := r
+    simp only at h1 h2 hl
+    have hpos : inner.length ≠ 0 := by
+      rw [hl]; exact Nat.ne_of_gt (Nat.mul_pos (by omega) (by omega))
+    exact ⟨mkInv _ _ _ _ _ h1 h2 hl, by simp [hpos]⟩
+
+/-- `from_sparse`: the bounds are (first row, min col)–(last row, max col) — the tight bounding box when the
+    cells are sorted by row —, every position holds the value of the *last* input cell at that position
+    (last writer wins), every other position the default. Cells below the last cell's row are dropped
+    (they violate the documented precondition); a cell above the first's row makes the call panic. -/
+theorem fromSparse_spec (cells : List (Nat × Nat × α)) (hne : cells ≠ []) (r : Rng α)
+    (h : fromSparse cells = .ok r) :
+    r.inner.length ≠ 0 ∧ r.sr = (cells.head hne).1 ∧ r.er = (cells.getLast hne).1 ∧
+    (∀ c ∈ cells, r.sr ≤ c.1 ∧ r.sc ≤ c.2.1 ∧ c.2.1 ≤ r.ec) ∧
+    (∃ c ∈ cells, c.2.1 = r.ec) ∧ ((∀ c ∈ cells, c.2.1 < U32) → ∃ c ∈ cells, c.2.1 = r.sc) ∧
+    ∀ p q, r.valAt p q = if p ≤ r.er then (lastAt cells p q).getD default else default := by
+  obtain ⟨hinv, hemp⟩ := inv_fromSparse cells r h
+  have hpos : r.inner.length ≠ 0 := fun h0 => hne (hemp.mp h0)
+  cases cells with
+  | nil => exact absurd rfl hne
+  | cons c0 rest =>
+    obtain ⟨e1, e2, e3, e4, h1, h2, hl, hmem, hv⟩ := fromSparse_core c0 rest r h
+    have hmin := foldMin_spec (c0 :: rest) (U32 - 1)
+    have hmax := foldMax_spec (c0 :: rest) 0
+    rw [← e3] at hmin; rw [← e4] at hmax
+    have hc0 := hmem c0 (List.mem_cons_self ..)
+    refine ⟨hpos, e1, ?_, hmem, ?_, ?_, ?_⟩
+    · rw [e2, List.getLast?_eq_some_getLast hne]; rfl
+    · rcases hmax.2.2 with h0 | hex
+      · exact ⟨c0, List.mem_cons_self .., by omega⟩
+      · exact hex
+    · intro hu
+      rcases hmin.2.2 with h0 | hex
+      · have := hu c0 (List.mem_cons_self ..)
+        exact ⟨c0, List.mem_cons_self .., by omega⟩
+      · exact hex
+    · intro p q
+      by_cases hin : r.sr ≤ p ∧ p ≤ r.er ∧ r.sc ≤ q ∧ q ≤ r.ec
+      · rw [valAt_of_in r p q hpos hin, hinv.width_eq hpos, if_pos hin.2.1]
+        exact hv p q hin.1 hin.2.1 hin.2.2.1 hin.2.2.2
+      · rw [valAt_of_out r p q (by omega)]
+        split
+        · have : lastAt (c0 :: rest) p q = none := by
+            unfold lastAt
+            rw [Option.map_eq_none_iff, List.find?_eq_none]
+            intro c hc
+            have := hmem c (List.mem_reverse.mp hc)
+            simp only [decide_eq_true_eq]; omega
+          rw [this]; rfl
+        · rfl
+
+theorem lastAt_append_cons (l1 l2 : List (Nat × Nat × α)) (c : Nat × Nat × α)
+    (hl2 : ∀ c' ∈ l2, ¬ (c'.1 = c.1 ∧ c'.2.1 = c.2.1)) :
+    lastAt (l1 ++ c :: l2) c.1 c.2.1 = some c.2.2 := by
+  unfold lastAt
+  rw [List.reverse_append, List.reverse_cons, List.append_assoc, List.find?_append]
+  have : l2.reverse.find? (fun c' => decide (c'.1 = c.1 ∧ c'.2.1 = c.2.1)) = none := by
+    rw [List.find?_eq_none]; intro x hx; simpa using hl2 x (List.mem_reverse.mp hx)
+  rw [this]; simp
+
+/-- under the documented precondition (rows sorted, so none exceeds the last cell's row) every position
+    holds the last cell written there, or the default -/
+theorem fromSparse_spec_sorted (cells : List (Nat × Nat × α)) (hne : cells ≠ []) (r : Rng α)
+    (h : fromSparse cells = .ok r) (hs : ∀ c ∈ cells, c.1 ≤ (cells.getLast hne).1) (p q : Nat) :
+    r.valAt p q = (lastAt cells p q).getD default := by
+  obtain ⟨_, _, her, _, _, _, hv⟩ := fromSparse_spec cells hne r h
+  rw [hv p q]
+  split
+  · rfl
+  · have : lastAt cells p q = none := by
+      unfold lastAt
+      rw [Option.map_eq_none_iff, List.find?_eq_none]
+      intro c hc
+      have := hs c (List.mem_reverse.mp hc)
+      simp only [decide_eq_true_eq]; omega
+    rw [this]; rfl
+
+/-- every input cell (not below the last row) is at its position unless a later cell overwrites it -/
+theorem fromSparse_last_wins (l1 l2 : List (Nat × Nat × α)) (c : Nat × Nat × α) (r : Rng α)
+    (h : fromSparse (l1 ++ c :: l2) = .ok r) (hrow : c.1 ≤ r.er)
+    (hl2 : ∀ c' ∈ l2, ¬ (c'.1 = c.1 ∧ c'.2.1 = c.2.1)) : r.valAt c.1 c.2.1 = c.2.2 := by
+  obtain ⟨_, _, _, _, _, _, hv⟩ := fromSparse_spec (l1 ++ c :: l2) (by simp) r h
+  rw [hv, if_pos hrow, lastAt_append_cons l1 l2 c hl2]; rfl
+
+/-- a position no input cell addresses holds the default value -/
+theorem fromSparse_untouched (cells : List (Nat × Nat × α)) (r : Rng α) (h : fromSparse cells = .ok r)
+    (p q : Nat) (hno : ∀ c ∈ cells, ¬ (c.1 = p ∧ c.2.1 = q)) : r.valAt p q = default := by
+  cases cells with
+  | nil =>
+    simp only [fromSparse] at h; injection h with h; subst h
+    exact valAt_of_out _ _ _ (by simp [empty])
+  | cons c0 rest =>
+    obtain ⟨_, _, _, _, _, _, hv⟩ := fromSparse_spec (c0 :: rest) (by simp) r h
+    rw [hv]
+    have : lastAt (c0 :: rest) p q = none := by
+      unfold lastAt
+      rw [Option.map_eq_none_iff, List.find?_eq_none]
+      intro c hc
+      simpa using hno c (List.mem_reverse.mp hc)
+    rw [this]; split <;> rfl
+
 end Range
